@@ -12,17 +12,35 @@ GEN_CONFIG = {"groups": ["a", "b", "u"], "W": {"r1": 2, "r2": 4}, "Allowed": {"r
               "DefBehav": {"r1": "use_default", "r2": "none"}, "DefPct": {"r1": 100, "r2": 0}}
 
 
+WSIZES = [2, 2, 4, 6, 10, 14, 22]      # ticks of 500 ms: 1, 2, 3, 5, 7, 11 s
+
+
+def storm_script(rng, n, k):
+    """many fresh group keys, each hit first by k concurrent requests (first-use races of the per-key state)."""
+    groups = ["g%d" % i for i in range(n)]
+    cfg = {"groups": groups, "W": {"r1": 4}, "Allowed": {"r1": 1}, "Pct": {"r1": {g: -1 for g in groups}},
+           "DefBehav": {"r1": "use_default"}, "DefPct": {"r1": 100}}
+    hists = []
+    for i in range(0, n, 10):
+        h = [{"ev": "reset", "now": rng.randint(1, 9)}]
+        for g in groups[i:i + 10]:
+            h.append({"ev": "storm", "r": "r1", "g": g, "n": k})
+        hists.append(h)
+    return {"config": cfg, "histories": hists}
+
+
 def rand_config(rng, thorough):
     rems = ["r1", "r2"][: rng.choice([1, 2, 2])]
-    cfg = {"groups": ["a", "b", "u"], "W": {}, "Allowed": {}, "Pct": {}, "DefBehav": {}, "DefPct": {}}
+    # group header values: two listed ones, an unknown one, and spelling variants of a listed one (distinct groups)
+    cfg = {"groups": ["a", "b", "u", "A", "a "], "W": {}, "Allowed": {}, "Pct": {}, "DefBehav": {}, "DefPct": {}}
     for r in rems:
-        cfg["W"][r] = rng.choice([2, 2, 4, 6])
+        cfg["W"][r] = rng.choice(WSIZES)
         cfg["Allowed"][r] = rng.choice([1, 2, 3] + ([4, 5] if thorough else []))
         cfg["DefBehav"][r] = rng.choice(["none", "allow", "block", "use_default", "use_default", "undefined"])
         cfg["DefPct"][r] = rng.choice([0, 50, 100])
-        cfg["Pct"][r] = {"a": rng.choice([25, 34, 50, 100]), "b": rng.choice([0, 50, 75, 100]), "u": -1}
+        cfg["Pct"][r] = {"a": rng.choice([25, 34, 50, 100]), "b": rng.choice([0, 50, 75, 100]), "u": -1, "A": -1, "a ": -1}
         if cfg["DefBehav"][r] == "none":
-            cfg["Pct"][r] = {"a": -1, "b": -1, "u": -1}
+            cfg["Pct"][r] = {g: -1 for g in cfg["groups"]}
     return cfg
 
 
@@ -30,16 +48,22 @@ def rand_history(rng, cfg, n, conc):
     rems = sorted(cfg["W"])
     now = rng.randint(1, 9)
     h = [{"ev": "reset", "now": now}]
+    cur_w = dict(cfg["W"])
     hot = (rng.choice(rems), rng.choice(cfg["groups"]))     # most traffic on one key so windows fill up
     for _ in range(n):
         x = rng.random()
-        if x < 0.30:
-            w = cfg["W"][hot[0]]
-            d = rng.choice([1, 1, 2, 3, w, w - now % w, w - now % w])   # incl. exactly onto the grid boundary
+        if x < 0.05:
+            r = rng.choice(rems)
+            w = rng.choice([v for v in set(WSIZES) if v != cur_w[r]])
+            cur_w[r] = w
+            h.append({"ev": "setw", "r": r, "w": w})
+        elif x < 0.33:
+            w = cur_w[hot[0]]
+            d = rng.choice([1, 1, 2, 3, w // 2, w, w - now % w, w - now % w])   # incl. exactly onto the grid boundary
             d = max(1, d)
             now += d
             h.append({"ev": "adv", "d": d})
-        elif conc and x < 0.42:
+        elif conc and x < 0.45:
             k = rng.randint(2, 5)
             reqs = [{"r": hot[0], "g": hot[1]} if rng.random() < 0.8 else
                     {"r": rng.choice(rems), "g": rng.choice(cfg["groups"])} for _ in range(k)]
@@ -61,6 +85,9 @@ def script_of_history(hist):
             conc["reqs"].append({"r": e["r"], "g": e["g"]})
         elif e["ev"] == "end":
             continue
+        elif e["ev"] == "batch":
+            conc = None
+            out.append({"ev": "storm", "r": e["r"], "g": e["g"], "n": e["n"]})
         else:
             conc = None
             out.append({k: v for k, v in e.items() if k != "out"})
@@ -76,18 +103,21 @@ def nontrivial(hist):
 
 def witness_of(rej):
     h, at, cfg = rej["hist"], rej["at"], rej["config"]
-    now = 0
+    now, cur_w, changed = 0, dict(cfg["W"]), False
     for e in h[: at + 1]:
         if e["ev"] == "reset":
             now = e["now"]
         elif e["ev"] == "adv":
             now += e["d"]
+        elif e["ev"] == "setw":
+            cur_w[e["r"]] = e["w"]
+            changed = True
     e = h[at]
     r = e.get("r")
-    w = cfg["W"].get(r) if r else None
+    w = cur_w.get(r) if r else None
     return {"class": "verdict-not-allowed-by-spec", "event": e, "now": now,
-            "on_grid_boundary": bool(w) and now % w == 0, "concurrent": e["ev"] in ("begin", "end"),
-            "invariant": rej.get("invariant")}
+            "on_grid_boundary": bool(w) and now % w == 0, "after_window_change": changed,
+            "concurrent": e["ev"] in ("begin", "end", "batch"), "invariant": rej.get("invariant")}
 
 
 def execute(ctx, binary, scripts, tag):
@@ -108,7 +138,7 @@ def judge(ctx, binary, traces, tag, seen_hist):
         cfg, hs = split_histories(ev)
         ctx.cov["traces_validated_against_impl"] += acc
         for h in hs:
-            ctx.cov["evaluations"] += sum(1 for e in h if e["ev"] in ("req", "begin"))
+            ctx.cov["evaluations"] += sum(e.get("n", 1) for e in h if e["ev"] in ("req", "begin", "batch"))
             key = json.dumps([cfg, h], sort_keys=True)
             if key not in seen_hist:
                 seen_hist.add(key)
@@ -117,17 +147,29 @@ def judge(ctx, binary, traces, tag, seen_hist):
         for rej in rejected:
             w = witness_of(rej)
             script = [{"config": rej["config"], "histories": [script_of_history(rej["hist"])]}]
-            # reproduce: same script again on the real code, judged again by the spec
+            # reproduce: same script again on the real code, judged again by the spec.  A schedule-dependent rejection
+            # is reproduced by re-running the whole originating script (same driver, same seed) until the spec rejects a
+            # concurrent event again; the replay file then holds the reproduced case.
             reproduced = False
-            for attempt in range(1 if not w["concurrent"] else 20):
+            if not w["concurrent"]:
                 t2 = execute(ctx, binary, script, "%s-repro" % tag)[0]
                 a2, r2, _ = validate_history_trace(ctx, SPEC, "ThrottleTrace", t2, tag="%s-repro" % tag)
-                if r2:
-                    reproduced = True
-                    break
+                reproduced = bool(r2)
+            else:
+                whole = [{"config": cfg, "histories": [script_of_history(h) for h in hs]}]
+                for attempt in range(6):
+                    t2 = execute(ctx, binary, whole if attempt else script, "%s-repro" % tag)[0]
+                    a2, r2, _ = validate_history_trace(ctx, SPEC, "ThrottleTrace", t2, tag="%s-repro" % tag, max_rounds=1)
+                    if r2 and witness_of(r2[0])["concurrent"]:
+                        reproduced = True
+                        rej = r2[0]
+                        w = witness_of(rej)
+                        script = [{"config": rej["config"], "histories": [script_of_history(rej["hist"])]}]
+                        break
             if not reproduced:
                 raise Broken("rejection not reproduced (%s): %s" % (tag, json.dumps(w)))
-            ctx.violation(w, {"script": script, "trace": [rej["config"]] + rej["hist"], "rejected_at": rej["at"]})
+            ctx.violation(w, {"script": script, "trace": [rej["config"]] + rej["hist"], "rejected_at": rej["at"],
+                              "schedule_dependent": w["concurrent"]})
 
 
 def run(ctx):
@@ -138,15 +180,17 @@ def run(ctx):
                        "exactly on a grid boundary, concurrent batches) over random configurations + TLC -simulate walks of "
                        "ThrottleP; a history is non-trivial when it contains a blocked request and a clock advance; distinct by "
                        "(config, events)")
-    ctx.cov["checker_cmd"] = "tlc -config MC_small.cfg MC_C09.tla ; tlc -config ThrottleTrace.cfg ThrottleTrace.tla"
+    ctx.cov["checker_cmd"] = "tlc -config MC_small.cfg ThrottleIP.tla ; tlc -config ThrottleTrace.cfg ThrottleTrace.tla"
     ctx.cov["trusted_base"] = ["TLC 1.8", "CommunityModules Json", "Go toolchain", "clock.MockClock", "harness/cmd/c09 projection (NoOp=pass, EarlyResponse{status}=block)"]
-    ctx.assumptions += ["1 tick = 500 ms, windows are whole seconds (even ticks)", "spillover disabled", "instants are bounded in the exhaustive model (MaxNow)"]
+    ctx.assumptions += ["1 tick = 500 ms, windows are whole seconds (even ticks)", "spillover disabled", "window lengths drawn / reconfigured among {1,2,3,5,7,11} s", "instants are bounded in the exhaustive model (MaxNow)"]
 
     # (1) exhaustive: I => P on the bounded instance; the variant with the strict reset test must be refuted (non-vacuity)
-    ctx.tlc_exhaustive(sd, "MC_C09", "MC_small.cfg" if not T else "MC_large.cfg", timeout=1500, label="I=>P refinement")
-    r = ctx.tlc(sd, "MC_C09", "MC_small_strict.cfg", timeout=300, label="non-vacuity: strict After must be refuted")
-    if r.violated is None:
-        raise Broken("model cannot tell the strict reset test from the property (vacuous refinement check): %r" % r)
+    ctx.tlc_exhaustive(sd, "ThrottleIP", "MC_small.cfg" if not T else "MC_large.cfg", timeout=1500, label="I=>P (Conforms)")
+    ctx.tlc_exhaustive(sd, "ThrottleIP", "MC_iso.cfg", timeout=300, label="I=>P two remedies (Isolation)")
+    for cfgname, what in (("MC_small_strict.cfg", "strict After reset test"), ("MC_small_stale.cfg", "stale window after a window-length change")):
+        r = ctx.tlc(sd, "ThrottleIP", cfgname, timeout=300, label="non-vacuity: %s must be refuted" % what)
+        if r.violated is None:
+            raise Broken("model cannot tell '%s' from the property (vacuous I=>P check): %r" % (what, r))
 
     seen = set()
     # (2) spec -> code: TLC-generated behaviours of P, replayed; real outcomes must equal the spec's
@@ -163,9 +207,9 @@ def run(ctx):
     for b, h in zip(behaviours, real):
         for i, (se, re_) in enumerate(zip(b, h[1:])):
             if se.get("out") != re_.get("out"):
-                mism += 1
+                mism += 1       # not a verdict: P may permit both outcomes right after a window-length change; TLC judges below
                 break
-    ctx.log("replayed %d TLC behaviours, %d differ from the spec's prediction" % (len(behaviours), mism))
+    ctx.log("replayed %d TLC behaviours, %d take another (possibly also permitted) branch than the walk" % (len(behaviours), mism))
     ctx.sample({"kind": "tlc-behaviour", "config": GEN_CONFIG, "events": behaviours[0][:12]})
     judge(ctx, binary, traces, "gen", seen)     # mismatches surface as rejections (P is deterministic)
 
@@ -175,6 +219,7 @@ def run(ctx):
     for c in range(ncfg):
         cfg = rand_config(ctx.rng, T)
         scripts.append({"config": cfg, "histories": [rand_history(ctx.rng, cfg, hl, conc=(i % 2 == 1)) for i in range(nh)]})
+    scripts.append(storm_script(ctx.rng, 3000 if not T else 30000, 8))
     traces = execute(ctx, binary, scripts, "rand")
     ctx.sample({"kind": "recorded-trace", "events": traces[0][:14]})
     judge(ctx, binary, traces, "rand", seen)
@@ -197,13 +242,19 @@ def run(ctx):
 def replay(ctx, path):
     obj = json.load(open(path))
     binary = ctx.build_harness("c09")
-    t = execute(ctx, binary, obj["replay"]["script"], "replay")[0]
-    acc, rej, _ = validate_history_trace(ctx, SPEC, "ThrottleTrace", t, tag="replay")
-    for e in t:
-        print(json.dumps(e))
-    if rej:
-        print("VIOLATION property=C09 replay=%s" % path)
-        print("   rejected at event %d: %s" % (rej[0]["at"], json.dumps(rej[0]["hist"][rej[0]["at"]])))
-        return 1
-    print("replay accepted by the specification")
+    rp = obj["replay"]
+    # the recorded real trace, judged again by the specification (deterministic)
+    _, rej0, _ = validate_history_trace(ctx, SPEC, "ThrottleTrace", rp["trace"], tag="replay-rec", max_rounds=1)
+    print("recorded trace: %s by the specification" % ("REJECTED" if rej0 else "accepted"))
+    # re-execution on the real code (schedule-dependent cases: repeated)
+    for attempt in range(300 if rp.get("schedule_dependent") else 1):
+        t = execute(ctx, binary, rp["script"], "replay")[0]
+        acc, rej, _ = validate_history_trace(ctx, SPEC, "ThrottleTrace", t, tag="replay", max_rounds=1)
+        if rej:
+            for e in t:
+                print(json.dumps(e))
+            print("VIOLATION property=C09 replay=%s" % path)
+            print("   re-execution %d rejected at event %d: %s" % (attempt + 1, rej[0]["at"], json.dumps(rej[0]["hist"][rej[0]["at"]])))
+            return 1
+    print("re-execution accepted by the specification" + (" (schedule-dependent case, 300 attempts)" if rp.get("schedule_dependent") else ""))
     return 0
